@@ -134,4 +134,11 @@ F('agg_set_host_or_hostname_1', A + 'set_host_or_hostname', cls='agg', mangled=r
 F('apply_shifted_non_scheme_offsets', 'apply_shifted_non_scheme_offsets')
 F('strip_trailing_spaces_from_opaque_path_agg', 'ada::helpers::strip_trailing_spaces_from_opaque_path', mangled=r'.*strip_trailing_spaces_from_opaque_pathINS_14url_aggregatorEE.*')
 F('agg_parse_port1', A + 'parse_port', cls='agg', mangled=r'_ZN3ada14url_aggregator10parse_portESt17basic_string_viewIcSt11char_traitsIcEE')
-F('idna_to_ascii', 'ada::idna::to_ascii')
+F('idna_to_ascii', 'ada::idna::to_ascii', mangled=r'_ZN3ada4idna8to_asciiB5cxx11E.*')
+F('idna_to_ascii_out', 'ada::idna::to_ascii', mangled=r'_ZN3ada4idna8to_asciiESt17.*')
+F('idna_to_unicode', 'ada::idna::to_unicode', mangled=r'_ZN3ada4idna10to_unicodeB5cxx11E.*')
+F('parse_url_impl_agg_1', 'ada::parser::parse_url_impl', mangled=r'_ZN3ada6parser14parse_url_implINS_14url_aggregatorELb1EEE.*', targs='ada::url_aggregator, true')
+F('parse_url_impl_agg_0', 'ada::parser::parse_url_impl', mangled=r'_ZN3ada6parser14parse_url_implINS_14url_aggregatorELb0EEE.*', targs='ada::url_aggregator, false')
+F('parse_url_impl_url_1', 'ada::parser::parse_url_impl', mangled=r'_ZN3ada6parser14parse_url_implINS_3urlELb1EEE.*')
+F('try_parse_simple_absolute_agg', 'ada::parser::try_parse_simple_absolute', mangled=r'_ZN3ada6parser25try_parse_simple_absoluteINS_14url_aggregatorEEE.*')
+F('try_parse_simple_absolute_url', 'ada::parser::try_parse_simple_absolute', mangled=r'_ZN3ada6parser25try_parse_simple_absoluteINS_3urlEEE.*')
